@@ -1,9 +1,14 @@
 package oper
 
+import "math"
+
 // BP BindingPower, Precedence
 // 这里使用 float 是因为可以更精细定义自定义操作符的优先级
 // e.g. 如果需要区分前后缀操作符优先级, 可以自己调整
 type BP float32
+
+// Pred 小于 bp 的最大 BP (右结合操作符的右操作数用它解析, bp 可以是小数, 所以不能用 bp-1)
+func (bp BP) Pred() BP { return BP(math.Nextafter32(float32(bp), float32(math.Inf(-1)))) }
 
 //goland:noinspection GoSnakeCaseUsage
 const (
